@@ -127,6 +127,30 @@ class MemWorld:
             await cons.start()
             self.consumers[c] = cons
             self.cspec[c] = (q, cat, topics)
+            self._mark_polls(cons, c, q)
+
+    def _mark_polls(self, cons, c: int, q: int) -> None:
+        """One poll = one call of the consumer's per-category fetch function (consume() looks it up in a dict of the
+        instance): wrap the entries so that every poll is logged with its instant and whether the container was empty.
+        Falls back on the containers' own logging (get_nowait / emptiness tests) when the dict is not there."""
+        table = getattr(cons, "_InMemoryConsumer__category_to_consume", None)
+        self.poll_marks = isinstance(table, dict) and getattr(self, "poll_marks", True)
+        if not isinstance(table, dict):
+            return
+        dq = self.w.mb.queues[f"q{q}"]
+
+        def empty_of(cat_):
+            if cat_ == MessageCategory.NORMAL:
+                return dq.simple.empty()
+            if cat_ == MessageCategory.DELAYED:
+                return dict.__len__(dq.delayed) == 0
+            return list.__len__(dq.dead) == 0
+
+        for cat_, fn in list(table.items()):
+            def wrapped(fn=fn, cat_=cat_):
+                self.events.append(("poll", CLOCK.now_us(), c, empty_of(cat_)))
+                return fn()
+            table[cat_] = wrapped
 
     def owner_of(self, dq, m) -> int:
         """Which consumer holds m: the queue's own record when it keeps one, else what the harness saw being delivered."""
@@ -593,7 +617,7 @@ def polls_of(mw: MemWorld, events: list) -> list:
         cat = mw.cspec[c][1]
         if name == "update":
             upd[c] = True
-        elif (name == "get" and cat == 0) or (name == "dpoll" and cat != 0):
+        elif name == "poll" if getattr(mw, "poll_marks", False) else ((name == "get" and cat == 0) or (name == "dpoll" and cat != 0)):
             u = upd.pop(c, False)
             is_idle = bool(empty) and not u
             if is_idle and polls and idle[-1] and polls[-1][0] == c and not barrier:
